@@ -1,10 +1,10 @@
 #!/bin/bash
-# usage: soak.sh <out> <tier> <seed>... — runs every registered check with the given seeds on the current tree
+# usage: soak.sh <out> <tier> <seed>... — runs every registered check (or those in $CHECKS) with the given seeds on the current tree
 OUT=$1; TIER=$2; shift 2
 cd "$(dirname "$0")/.."
 : > $OUT
 for seed in "$@"; do
-  for c in C01 C02 C03 C04 C05 C06 C07 C08 C09 C10 C11 C12 C13 C14 C15 C16 C17 C18; do
+  for c in ${CHECKS:-C01 C02 C03 C04 C05 C06 C07 C08 C09 C10 C11 C12 C13 C14 C15 C16 C17 C18}; do
     t0=$(date +%s)
     o=$(VERIF_SEED=$seed ./check $c --tier $TIER 2>&1); rc=$?
     t1=$(date +%s)
